@@ -19,7 +19,7 @@ import (
 func init() { Registry["C15"] = checkC15 }
 
 func checkC15(p *core.Prog, r *core.Report) {
-	r.Explanation = "Decides structural necessary conditions of the atomic-register behaviour: (R1) on every path of Lock/UnLock/wakeUpWaitLock that applies a value operation (ProcessLockData) and then answers, the reply's value argument is a GetLockData() result obtained before the operation, inside the same shard-mutex section; (R2) refusal replies are reached without ProcessLockData/ProcessRecoverLockData on the path; (R3) the operation switches of ProcessLockData and ProcessRecoverLockData have a case for every LOCK_DATA_COMMAND_TYPE_* constant; (R4) the Redis-style command names are registered identically in the leader and follower text protocols and in the converter; (R5) published value frames are immutable: no element store, copy destination or append base in the value-operation code derives from the manager's current frame (replies, undo records and the log still reference it). (R6) the pre-operation value kept for a pending request (LockData.recoverData) is read before the call that clears it, never after. (R7) the Redis-style result writers answer with an error line only on a path where the engine's result code was tested non-zero (an applied operation is never reported as refused). (R8) the data frame a binary request carries is a private buffer: Stream.ReadBytesFrame returns only freshly made slices and the decoder adopts only those (the value operations keep the frame as the stored value). (R9) on a grant that adds a holder the key's depth is incremented before the request's value operation runs (the operation reads the depth for first/last-holder-only operations). (R10) no comparison mixes the request-type enumeration with the value-operation enumeration (one does: known finding, PIPELINE). (R11) every value frame the value-operation code or a codec allocates and hands on as a frame has its own length minus four stored in its first four bytes before the hand-over. (R12) the engine reads the stored bytes as a little-endian integer only under the frame's NUMBER type mark (it does not: known finding - text SET n 10, INCRBY n 1 answers 12338). NOT decided: the rest of the byte surgery of each operation, numeric overflow, the Redis-style answers."
+	r.Explanation = "Decides structural necessary conditions of the atomic-register behaviour: (R1) on every path of Lock/UnLock/wakeUpWaitLock that applies a value operation (ProcessLockData) and then answers, the reply's value argument is a GetLockData() result obtained before the operation, inside the same shard-mutex section; (R2) refusal replies are reached without ProcessLockData/ProcessRecoverLockData on the path; (R3) the operation switches of ProcessLockData and ProcessRecoverLockData have a case for every LOCK_DATA_COMMAND_TYPE_* constant; (R4) the Redis-style command names are registered identically in the leader and follower text protocols and in the converter; (R5) published value frames are immutable: no element store, copy destination or append base in the value-operation code derives from the manager's current frame (replies, undo records and the log still reference it). (R6) the pre-operation value kept for a pending request (LockData.recoverData) is read before the call that clears it, never after. (R7) the Redis-style result writers answer with an error line only on a path where the engine's result code was tested non-zero (an applied operation is never reported as refused). (R8) the data frame a binary request carries is a private buffer: Stream.ReadBytesFrame returns only freshly made slices and the decoder adopts only those (the value operations keep the frame as the stored value). (R9) on a grant that adds a holder the key's depth is incremented before the request's value operation runs (the operation reads the depth for first/last-holder-only operations). (R10) no comparison mixes the request-type enumeration with the value-operation enumeration (one does: known finding, PIPELINE). (R11) every value frame the value-operation code or a codec allocates and hands on as a frame has its own length minus four stored in its first four bytes before the hand-over. (R12) the engine reads the stored bytes as a little-endian integer only under the frame's NUMBER type mark (it does not: known finding - text SET n 10, INCRBY n 1 answers 12338). (R13) PUSH continues the stored frame as an array (keeps its flag byte and adds the ARRAY mark) only on the true side of an IsArrayValue() test. NOT decided: the rest of the byte surgery of each operation, numeric overflow, the Redis-style answers."
 	r.Assumptions = []string{"Go type checker and go/ssa are correct for /repo", "GetLockData returns the current frame without copying (so R5 matters)"}
 	c15R1(p, r)
 	c15R2(p, r)
@@ -33,6 +33,7 @@ func checkC15(p *core.Prog, r *core.Report) {
 	c15R10(p, r)
 	c15R11(p, r)
 	c15R12(p, r)
+	c15R13(p, r)
 }
 
 func c15R1(p *core.Prog, r *core.Report) {
